@@ -162,6 +162,8 @@ def gen_post_step(rng, w, has_born, prev_wrote_fc, force_cmd=None):
         # written numbers are then ~1e14 and noise, not a property of either front-end
         s["fmin"] = rng.choice([0.1, 0.2])
         s.pop("nomeshsym", None)
+        if mode == "tdisp" and rng.random() < 0.4:
+            s["projection_direction"] = rng.choice(["1 0 0", "0 0 1", "1 1 0", "1 -1 2"])  # displacements along one (fractional) direction
     elif mode in ("band", "band_mesh"):
         pts = [[0, 0, 0], [0.5, 0, 0], [0.5, 0.5, 0], [0.5, 0.5, 0.5], [0, 0.5, 0.5], [0.25, 0.25, 0]]
         path = rng.sample(pts, rng.randint(2, 3))
@@ -447,7 +449,8 @@ def child_reference(args):
         out.update(T=d["temperatures"], tdm=six)
     elif mode == "tdisp":
         ph.run_mesh(mesh, with_eigenvectors=True, is_mesh_symmetry=False, is_gamma_center=mkw["is_gamma_center"], shift=mkw.get("shift"))
-        ph.run_thermal_displacements(t_min=s.get("tmin", 0), t_max=s.get("tmax", 1000), t_step=s.get("tstep", 10), freq_min=s.get("fmin"), freq_max=s.get("fmax"))
+        ph.run_thermal_displacements(t_min=s.get("tmin", 0), t_max=s.get("tmax", 1000), t_step=s.get("tstep", 10), freq_min=s.get("fmin"), freq_max=s.get("fmax"),
+                                     direction=([float(x) for x in s["projection_direction"].split()] if "projection_direction" in s else None))
         d = ph.get_thermal_displacements_dict()
         out.update(T=d["temperatures"], tdisp=d["thermal_displacements"])
     elif mode in ("band", "band_mesh"):
